@@ -527,9 +527,30 @@ fn run_rep(rep: &Rep, n: usize, ctx: &Ctx, fstep: usize) -> Report {
                     if let Some(e) = check_all(p.neg(), tt::not(f, n), n, &suites, &mut ev) {
                         viol(&mut r, f, true, e);
                     }
+                    // the smoothed diagram (nodes with two equal children) denotes the same
+                    // function and is counted under every weight table in turn
+                    let sp = match guarded(|| b.smooth(p, n)) {
+                        Ok(x) => x,
+                        Err(e) => {
+                            viol(&mut r, f, false, format!("smooth panicked: {}", e));
+                            p
+                        }
+                    };
+                    if bdd_tt(sp, n) == f {
+                        r.transitions += 1;
+                        if let Some(e) = check_all(sp, f, n, &suites, &mut ev) {
+                            viol(&mut r, f, false, format!("smoothed diagram: {}", e));
+                        }
+                    }
                     for (w, prm) in arb.iter() {
                         ev += 1;
-                        let got = p.unsmoothed_wmc(prm).0;
+                        let got = match guarded(|| p.unsmoothed_wmc(prm).0) {
+                            Ok(g) => g,
+                            Err(e) => {
+                                viol(&mut r, f, false, format!("count under unnormalised weights panicked: {}", e));
+                                break;
+                            }
+                        };
                         let want = depends_on_count(f, n, order, 0, w);
                         if got != want {
                             viol(&mut r, f, false, format!("unnormalised weights {:?}: count {}, sum over the variables each sub-function depends on {}", w, got, want));
